@@ -191,6 +191,26 @@ V = [
     ("C07", "F", "blind w1/B: guard", ("patch", "mut_c07_w1_B.diff", LU), None, None, "division by an untested pivot"),
     ("C07", "F", "blind w2/A: pivot search over rows j..N", ("patch", "mut_c07_w2_A.diff", LU), None, None, "C07.D2.pivot"),
     ("C07", "F", "blind w2/B: gather instead of scatter", ("patch", "mut_c07_w2_B.diff", LU), None, None, "two-output: L row origin mismatch"),
+    # ------------------------------------------------------------------ second batch: floors on the Tikhonov denominator, w5 refactors
+    ("C17", "F", "blind w2/A: denominator floored at 1e-12 (np.maximum)", ("patch", "mut_c17_w2_A.diff", QS), None, None, "qslst_restore_fft: channel 0"),
+    ("C17", "F", "blind w2/B: dense builder", ("patch", "mut_c17_w2_B.diff", APP), None, None, "_build_bccb_matrix"),
+    ("C17", "F", "denominator clipped at 1e-12", QS, "denom = (np.abs(H_hat) ** 2) + lam", "denom = np.clip((np.abs(H_hat) ** 2) + lam, 1e-12, None)",
+     "qslst_restore_fft: channel 0"),
+    ("C17", "F", "denominator floored through np.where", QS, "denom = (np.abs(H_hat) ** 2) + lam",
+     "denom = (np.abs(H_hat) ** 2) + lam\n    denom = np.where(denom < 1e-12, 1e-12, denom)", "qslst_restore_fft: channel 0"),
+    ("C17", "F", "denominator capped (np.minimum)", QS, "denom = (np.abs(H_hat) ** 2) + lam", "denom = np.minimum((np.abs(H_hat) ** 2) + lam, 1e6)",
+     "qslst_restore_fft: channel 0"),
+    ("C17", "S", "no-op floor max(|H|^2 + lam, 0)", QS, "denom = (np.abs(H_hat) ** 2) + lam", "denom = np.maximum((np.abs(H_hat) ** 2) + lam, 0.0)", None),
+    ("C17", "S", "no-op clip(|H|^2 + lam, 0, None) and fmax(., lam)", QS, "denom = (np.abs(H_hat) ** 2) + lam",
+     "denom = np.fmax(np.clip((np.abs(H_hat) ** 2) + lam, 0.0, None), lam)", None),
+    ("C17", "S", "refactor w5/R6: np.ix_ padding, shared per-channel FFT helper with lambdas", ("patch", "c17_w5_R6_fft_helper.diff", QS), None, None, None),
+    ("C07", "S", "refactor w5/R7: in-place /= on the work copy, fill_diagonal, fancy-index permutation, operator.ge/le band copy",
+     ("patch", "c07_w5_R7_lu.diff", LU), None, None, None),
+    ("C07", "S", "refactor w5/R2: quat_matmat through functools.reduce over a Hamilton table", ("patch", "c07_w5_R2_utils_functools.diff", LU), None, None, None),
+    ("C07", "F", "w5/R7 + scatter replaced by gather", ("patch", "c07_w5_R7_lu.diff", LU), "L_permuted[IP, :] = L", "L_permuted[:, :] = L[IP, :]",
+     "two-output: L row origin mismatch"),
+    ("C17", "F", "w5/R6 + |H| + lambda", ("patch", "c17_w5_R6_fft_helper.diff", QS), "denom = (np.abs(H_hat) ** 2) + lam",
+     "denom = np.abs(H_hat) + lam", "C17.D2.fft"),
 ]
 
 
